@@ -9,7 +9,9 @@ func isXSS(input string, flags int) bool {
 	)
 
 	h5.init(input, flags)
+	verifXSSEvent(6, h5, flags, attr)
 	for h5.next() {
+		verifXSSEvent(7, h5, flags, attr)
 		if h5.tokenType != html5TypeAttrValue {
 			attr = attributeTypeNone
 		}
